@@ -1,11 +1,14 @@
 package main
 
 import (
+	"bytes"
 	"fmt"
+	"hash/fnv"
 	"math/rand"
 	"time"
 
 	"verif/internal/drive"
+	"verif/internal/fakeredis"
 	"verif/internal/rdbx"
 	"verif/internal/ref"
 )
@@ -14,35 +17,90 @@ import (
 type snapKey struct {
 	ID       string
 	Key      []byte `json:"-"`
-	KeyQ     string // the key, Go-quoted
-	Slot     int
+	KeyQ     string // the key as stored at the source, Go-quoted
+	Target   []byte `json:"-"`
+	TargetQ  string // the key the target must receive (= KeyQ unless replaceHashTag is configured)
+	Slot     int    // slot of the key the target receives, by ref
 	KeyClass string
 	Shape    string
 	Kind     string
+	Worker   int  // replay worker the tool assigns the entry to (large snapshots only; workload shaping, not judged)
 	Filtered bool // withheld by the configured key-prefix blacklist
 }
 
 type snapshot struct {
-	Kind      string // "empty", "restore", "expanded"
-	File      []byte
-	Keys      []*snapKey
-	ByID      map[string]*snapKey
-	Functions int
-	LuaAux    bool
+	Kind       string // "empty", "restore", "expanded"
+	File       []byte
+	Keys       []*snapKey
+	ByID       map[string]*snapKey
+	Functions  int
+	LuaAux     bool
+	ReplaceTag bool
 }
+
+// stripFirstBraces is what output.replay.replaceHashTag is documented to do to a replayed key:
+// the first '{' and the first '}' are removed (written here from the option's description, not
+// with the tool's function).
+func stripFirstBraces(key []byte) []byte {
+	out := append([]byte{}, key...)
+	if i := bytes.IndexByte(out, '{'); i >= 0 {
+		out = append(out[:i], out[i+1:]...)
+	}
+	if i := bytes.IndexByte(out, '}'); i >= 0 {
+		out = append(out[:i], out[i+1:]...)
+	}
+	return out
+}
+
+func (s *snapshot) targetKey(key []byte) []byte {
+	if s.ReplaceTag {
+		return stripFirstBraces(key)
+	}
+	return key
+}
+
+func (s *snapshot) addKey(ds []rdbx.Key, i int, id string, key []byte, sh shape, filter *ref.Filter) *snapKey {
+	ds[i].Key = key
+	if ds[i].ExpireAtMs != 0 && ds[i].ExpireAtMs <= time.Now().UnixMilli()+3600_000 {
+		// a key that is already expired is dropped or restored with a 1 ms TTL depending on
+		// the path; not this property's business
+		ds[i].ExpireAtMs = time.Now().UnixMilli() + 30*24*3600_000
+	}
+	tk := s.targetKey(key)
+	k := &snapKey{ID: id, Key: key, KeyQ: fmt.Sprintf("%q", key), Target: tk, TargetQ: fmt.Sprintf("%q", tk), Slot: ref.HashSlot(tk), KeyClass: ref.KeyClass(key),
+		Shape: sh.name, Kind: ds[i].Value.Kind.String(), Filtered: filter.KeyRejected(key)}
+	s.Keys = append(s.Keys, k)
+	s.ByID[id] = k
+	return k
+}
+
+func (s *snapshot) encode(r *rand.Rand, ds []rdbx.Key, hist string) {
+	fo := rdbx.FileOptions{Version: 10, Aux: rdbx.DefaultAux(10), ResizeDB: true}
+	if r.Intn(2) == 0 {
+		s.LuaAux = true
+		fo.Aux = append(fo.Aux, [2]string{"lua", "return '" + hist + "'"})
+	}
+	if r.Intn(2) == 0 {
+		s.Functions = 1
+		fo.Functions = [][]byte{[]byte("#!lua name=lib" + hist + "\nredis.register_function('f" + hist + "', function(keys, args) return args[1] end)")}
+	}
+	s.File, _ = rdbx.EncodeFile(ds, fo)
+}
+
+var snapKinds5 = []rdbx.Kind{rdbx.KindString, rdbx.KindList, rdbx.KindSet, rdbx.KindZSet, rdbx.KindHash}
 
 // genSnapshot builds a small dataset whose key names carry every brace arrangement, encodes it
 // with the independent codec and returns the per-key expectations.  All keys live in DB 0 (a
 // cluster has no other).
-func genSnapshot(r *rand.Rand, kind, hist string, black []string, filter *ref.Filter) *snapshot {
-	s := &snapshot{Kind: kind, ByID: map[string]*snapKey{}}
+func genSnapshot(r *rand.Rand, kind, hist string, black []string, filter *ref.Filter, replaceTag bool) *snapshot {
+	s := &snapshot{Kind: kind, ByID: map[string]*snapKey{}, ReplaceTag: replaceTag}
 	if kind == "empty" {
 		s.File = drive.EmptyRDB
 		return s
 	}
 	n := 5 + r.Intn(6)
 	ds := rdbx.GenDataset(r, rdbx.GenOptions{Version: 10, NumKeys: n, DBs: []int{0}, Plain: true, SafeKeys: true,
-		NowMs: time.Now().UnixMilli(), MaxElemBytes: 64, IDPrefix: "tmp" + hist, Kinds: []rdbx.Kind{rdbx.KindString, rdbx.KindList, rdbx.KindSet, rdbx.KindZSet, rdbx.KindHash}})
+		NowMs: time.Now().UnixMilli(), MaxElemBytes: 64, IDPrefix: "tmp" + hist, Kinds: snapKinds5})
 	for i := range ds {
 		id := fmt.Sprintf("~%sS.%d~", hist, i)
 		var key []byte
@@ -71,26 +129,59 @@ func genSnapshot(r *rand.Rand, kind, hist string, black []string, filter *ref.Fi
 				}
 			}
 		}
-		ds[i].Key = key
-		if ds[i].ExpireAtMs != 0 && ds[i].ExpireAtMs <= time.Now().UnixMilli()+3600_000 {
-			// a key that is already expired is dropped or restored with a 1 ms TTL depending on
-			// the path; not this property's business
-			ds[i].ExpireAtMs = time.Now().UnixMilli() + 30*24*3600_000
+		s.addKey(ds, i, id, key, sh, filter)
+	}
+	s.encode(r, ds, hist)
+	return s
+}
+
+// genLargeSnapshot builds a snapshot of n small keys spread over all nodes for the
+// "a snapshot replay reported complete is complete" clause.  The tool hands an entry to replay
+// worker fnv32a(key) mod workers; the key names are drawn so that the keys of worker 0 live on
+// slowNode (whose EXEC replies are delayed) and all other keys elsewhere: worker 0 is still busy
+// when the other workers, the distributor and the global lane are done.  This only shapes the
+// schedule; nothing of it enters a verdict.
+func genLargeSnapshot(r *rand.Rand, kind, hist string, black []string, filter *ref.Filter, replaceTag bool, n, workers, slowNode int, cl *fakeredis.Cluster) *snapshot {
+	s := &snapshot{Kind: kind, ByID: map[string]*snapKey{}, ReplaceTag: replaceTag}
+	ds := rdbx.GenDataset(r, rdbx.GenOptions{Version: 10, NumKeys: n, DBs: []int{0}, Plain: true, SafeKeys: true,
+		NowMs: time.Now().UnixMilli(), MaxElemBytes: 24, IDPrefix: "tmp" + hist, Kinds: snapKinds5})
+	for i := range ds {
+		id := fmt.Sprintf("~%sS.%d~", hist, i)
+		pfx := ""
+		if len(black) > 0 && r.Intn(12) == 0 {
+			pfx = black[r.Intn(len(black))]
 		}
-		k := &snapKey{ID: id, Key: key, KeyQ: fmt.Sprintf("%q", key), Slot: ref.HashSlot(key), KeyClass: ref.KeyClass(key), Shape: sh.name, Kind: ds[i].Value.Kind.String(),
-			Filtered: filter.KeyRejected(key)}
-		s.Keys = append(s.Keys, k)
-		s.ByID[id] = k
+		// worker 0 gets its fair share of the keys (rejection sampling on the pair alone would starve it)
+		wantZero := r.Intn(workers) == 0 || i == len(ds)-1
+		for {
+			sh := shapes[r.Intn(len(shapes))]
+			var key []byte
+			if sh.tagFmt != "" {
+				p := sh.pre
+				psh := sh
+				psh.pre = func(id string) string { return pfx + p(id) }
+				k, ok := keyInSlot(psh, id, r.Intn(ref.Slots))
+				if !ok {
+					continue
+				}
+				key = k
+			} else {
+				key = []byte(pfx + sh.whole(id, r.Intn(100000)))
+			}
+			if drive.Reserved(key) {
+				continue
+			}
+			h := fnv.New32a()
+			h.Write(key)
+			w := int(h.Sum32() % uint32(workers))
+			onSlow := cl.Owner(ref.HashSlot(s.targetKey(key))) == slowNode
+			if (w == 0) != wantZero || onSlow != wantZero {
+				continue
+			}
+			s.addKey(ds, i, id, key, sh, filter).Worker = w
+			break
+		}
 	}
-	fo := rdbx.FileOptions{Version: 10, Aux: rdbx.DefaultAux(10), ResizeDB: true}
-	if r.Intn(2) == 0 {
-		s.LuaAux = true
-		fo.Aux = append(fo.Aux, [2]string{"lua", "return '" + hist + "'"})
-	}
-	if r.Intn(2) == 0 {
-		s.Functions = 1
-		fo.Functions = [][]byte{[]byte("#!lua name=lib" + hist + "\nredis.register_function('f" + hist + "', function(keys, args) return args[1] end)")}
-	}
-	s.File, _ = rdbx.EncodeFile(ds, fo)
+	s.encode(r, ds, hist)
 	return s
 }
